@@ -1,7 +1,7 @@
 """callee census: which calls reachable from a function have neither MIR nor model."""
 import sys
 sys.path.insert(0, '/verif')
-from mirsym import program, models, models_iter, models_map, models_std
+from mirsym import program, models, models_iter, models_map, models_std, models_fs
 from mirsym.rtypes import canon_callee
 
 
